@@ -50,7 +50,7 @@ BUILT = {
  "C08": dict(
    technique="proptest structured generation + child-process execution on a 2 MiB thread in two build profiles (crash/panic/over-production oracle)",
    category="exploration",
-   text="Generated configurations aimed at the failure modes the statement names (longest blocked runs inside a window, sizes 0/1/255/256/257/511/512/513/1326, empty ranges at any seat also beside ranges whose sizes multiply past 2^32/2^64, all-blocked ranges, 7-300 players, full drains) are drained in a child process on a 2 MiB thread, once in a release and once in a debug-profile build of espada; any panic, signal (stack overflow), over-production, or output with an empty range is a violation. The child consumes the iterator in one of four ways chosen by the configuration (for loop, size_hint() before every next(), collect(), nth() with steps 0-3); full tables of 6-12 ranges of 100-1000 combos (size product beyond 2^64, no empty seat) are asked for size_hint() and their first five showdowns.",
+   text="Generated configurations aimed at the failure modes the statement names (longest blocked runs inside a window, sizes 0/1/255/256/257/511/512/513/1326, empty ranges at any seat also beside ranges whose sizes multiply past 2^32/2^64, all-blocked ranges, 7-300 players, full drains) are drained in a child process on a 2 MiB thread, once in a release and once in a debug-profile build of espada; any panic, signal (stack overflow), over-production, or output with an empty range is a violation. Runs of 1.4e8-1.6e8 odometer slots (thorough: 8e9, beyond 2^32) of blocked deals go through an optimised build with overflow checks (counters that overflow only after 2^27 or 2^32 deals). The child consumes the iterator in one of four ways chosen by the configuration (for loop, size_hint() before every next(), collect(), nth() with steps 0-3); full tables of 6-12 ranges of 100-1000 combos (size product beyond 2^64, no empty seat) are asked for size_hint() and their first five showdowns.",
    note="Trusted: the OS reporting the child's death; an infinite silent loop can only hit the watchdog (exit 2). Debug profile = espada at opt-level 0 with overflow checks and debug assertions, dependencies optimised.",
    ref="DESIGN.md section 4 (C08)"),
  "C09": dict(
@@ -139,13 +139,13 @@ man = {
     },
     "engines": [
         {"name": "espada_verif", "path": "/verif/harness", "serves_properties": [c["property_id"] for c in checks if c["engine"] == "espada_verif"],
-         "kind_free_text": "Rust harness crate (proptest 1.11 as a library, enumerating generators, model oracles, replay files); espada is a cargo path dependency on /repo so every run rebuilds the current working tree; helper binaries c08_child (2 profiles) and c15_threads"},
+         "kind_free_text": "Rust harness crate (proptest 1.11 as a library, enumerating generators, model oracles, replay files); espada is a cargo path dependency on /repo so every run rebuilds the current working tree; helper binaries c08_child (3 profiles: release, dbgchk, optchk) and c15_threads; each check runs against three builds of espada (release, debug profile, release for the x86-64-v3 CPU level)"},
         {"name": "c16_scopes", "path": "/verif/harness/src/bin/c16_scopes.rs", "serves_properties": ["C16"],
          "kind_free_text": "isolated binary of the same crate that #[path]-includes /repo/examples/multi-thread/scope.rs"},
     ],
     "checks": checks,
     "not_applicable": [{"property_id": p, "reason": "check not built yet (framework under construction; the design in DESIGN.md section 4 applies)"} for p in ALL if p not in BUILT],
-    "notes": "Driver: ./check <ID> <quick|thorough> | ./check <ID> --replay <file>. Exit 0 held / 1 violation (VIOLATION line) / 2 inconclusive. VERIF_SEED selects the proptest seeds. Every run first replays the committed regression cases of its property (regressions/), then runs the release-build streams, then (except C01/C07 quick, and C08 which always runs both profiles) a scaled-down replica against a debug-profile build of espada (evidence/<ID>.debug_profile.json); thorough additionally runs the libFuzzer campaigns where a target exists.",
+    "notes": "Driver: ./check <ID> <quick|thorough> | ./check <ID> --replay <file>. Exit 0 held / 1 violation (VIOLATION line) / 2 inconclusive. VERIF_SEED selects the proptest seeds. Every run first replays the committed regression cases of its property (regressions/), then runs the release-build streams, then (except C01/C07 quick, and C08 which always runs both profiles) a scaled-down replica against a debug-profile build of espada (evidence/<ID>.debug_profile.json) and one against a release build for -C target-cpu=x86-64-v3 (evidence/<ID>.cpu_v3.json; skipped with a note where the CPU lacks that level) - code under #[cfg(target_feature)] or debug_assert!/overflow checks exists in one build only; --replay re-runs a case that holds in the release build in the other two builds; thorough additionally runs the libFuzzer campaigns where a target exists.",
 }
 json.dump(man, open("/verif/MANIFEST.json", "w"), indent=1)
 print("wrote MANIFEST.json with", len(checks), "checks")
